@@ -493,6 +493,10 @@ def r10_rendering_paths_are_python(chk, rule='C04.R10'):
             for sc, text in scs:
                 py = tp.fill_python_placeholders(text)
                 total += 1
+                if tp.fill_python_placeholders.glued and bad is None:
+                    bad = 'an expression is pasted into a numeric literal (`%s{{ ... }}`): its text is read as digits of ' \
+                          'that literal, in the base the prefix says' % tp.fill_python_placeholders.glued[0].strip()
+                    break
                 try:
                     with warnings.catch_warnings():
                         warnings.simplefilter('error')
@@ -530,5 +534,56 @@ def r12_default_formats_converted(chk):
                  'numbers, of other types hex digits)', floor=5)
 
 
+
+def r13_meta_members(chk):
+    """the templates address the module itself through mib["meta"]: the IR must supply what they read there"""
+    import os
+    import re as _re
+    model = chk.model
+    ci = model.cls(INTER, 'IntermediateCodeGen')
+    o, fn = ci.find_method('genCode')
+    chk.doc('C04.R13', 'every mib["meta"]["<k>"] a pysnmp / JSON template reads is stored by IntermediateCodeGen.genCode as '
+                       'outDict["meta"]["<k>"]; `module` is the name of the module being compiled and is stored '
+                       'unconditionally (the templates use it in registerAugmentions and exportSymbols)')
+    stores = dict((s.key[1], s) for s in ir.record_stores(fn) if len(s.key) == 2 and s.key[0] == 'meta')
+    read = {}
+    tdir = os.path.join(chk.repo, 'pysmi/codegen/templates')
+    for dp, dn, fns in os.walk(tdir):
+        for f in sorted(fns):
+            if f.endswith('.j2'):
+                src = open(os.path.join(dp, f)).read()
+                for m in _re.finditer(r"mib\[['\"]meta['\"]\]\[['\"](\w+)['\"]\]", src):
+                    read.setdefault(m.group(1), os.path.relpath(os.path.join(dp, f), chk.repo))
+    for k, rel in sorted(read.items()):
+        chk.ob('C04.R13', 'meta.%s read by templates' % k, k in stores, rel,
+               'mib["meta"]["%s"] is read by %s but never stored by IntermediateCodeGen.genCode' % (k, rel))
+    ms = stores.get('module')
+    chk.ob('C04.R13', 'meta.module', ms is not None and norm(ms.value) == 'self.moduleName[0]' and not ms.guards,
+           where(ci.mod, ms.node) if ms is not None else where(ci.mod, fn),
+           'meta.module must be self.moduleName[0], stored unconditionally')
+    chk.floor('C04.R13', 2, 'meta members')
+
+
+
+def r14_imports_reach_both_backends(chk):
+    """the constant imports a generated pysnmp module needs reach it through the IMPORTS mapping both passes work on
+    (shared with C16.R5 / C08.R1)"""
+    from rules.C16 import r5_apply_table as r5_import_rewriting
+    from rules.C08 import r1_worklist_growth
+    common.reuse(chk, r5_import_rewriting, ('C16.R5',), 'C04.R14',
+                 'SymtableCodeGen.genImports and IntermediateCodeGen.genImports apply the import conversion with the same '
+                 'code on the same mapping (C16.R5); the module list handed on enumerates every key of it (C08.R1)', floor=1)
+    r1_worklist_growth(chk, rule='C04.R14')
+
+
+
+def r15_augmention_record(chk):
+    """the template pastes augmention.object as a Python identifier (shared with C06.R2)"""
+    from rules.C06 import r2_table_index
+    common.reuse(chk, r2_table_index, ('C06.R2',), 'C04.R15',
+                 'augmention.object is the normalised name of the augmented row - the template uses it as an identifier '
+                 '(C06.R2)', keep=lambda o: 'augmention' in o.key, floor=1)
+
+
 RULES = [r1_shared_ir, r2_class_exhaustiveness, r3_field_agreement, r4_default_formats, r5_import_export_spelling,
-         r6_sibling_tails, r7_one_line_literals, r8_star_tuples, r9_definition_order, r10_rendering_paths_are_python, r11_generators_start_clean, r12_default_formats_converted]
+         r6_sibling_tails, r7_one_line_literals, r8_star_tuples, r9_definition_order, r10_rendering_paths_are_python, r11_generators_start_clean, r12_default_formats_converted, r13_meta_members, r14_imports_reach_both_backends, r15_augmention_record]
